@@ -247,6 +247,35 @@ func (tb *Table) Eq(a, b *Term) *Term {
 	if a.IsConst() && b.IsConst() {
 		return tb.BoolC(constEq(a, b))
 	}
+	// equality with a constant distributes over ite (joined values): keeps strings out of the query
+	if _, isItoa := tb.ItoaArg(a); a.Op == "ite" && b.IsConst() && !isItoa {
+		return tb.Ite(a.Args[0], tb.Eq(a.Args[1], b), tb.Eq(a.Args[2], b))
+	}
+	if _, isItoa := tb.ItoaArg(b); b.Op == "ite" && a.IsConst() && !isItoa {
+		return tb.Ite(b.Args[0], tb.Eq(b.Args[1], a), tb.Eq(b.Args[2], a))
+	}
+	if a.Sort == Str {
+		if a.Op == "ite" && b.Op == "ite" && iteConstLeaves(a) && iteConstLeaves(b) {
+			return tb.Ite(a.Args[0], tb.Eq(a.Args[1], b), tb.Eq(a.Args[2], b))
+		}
+		// signed decimal renderings: injective, never empty, equal to a constant only if it is canonical
+		ka, oka := tb.ItoaArg(a)
+		kb, okb := tb.ItoaArg(b)
+		switch {
+		case oka && okb:
+			return tb.Eq(ka, kb)
+		case oka && b.IsConst():
+			if n, ok := canonicalDecimal(b.S); ok {
+				return tb.Eq(ka, tb.BigC(n))
+			}
+			return tb.False
+		case okb && a.IsConst():
+			if n, ok := canonicalDecimal(a.S); ok {
+				return tb.Eq(kb, tb.BigC(n))
+			}
+			return tb.False
+		}
+	}
 	if a.Sort == Bool {
 		if a.IsConst() {
 			if a.B {
@@ -265,6 +294,13 @@ func (tb *Table) Eq(a, b *Term) *Term {
 		a, b = b, a
 	}
 	return tb.app("=", Bool, a, b)
+}
+
+func iteConstLeaves(t *Term) bool {
+	if t.Op == "ite" {
+		return iteConstLeaves(t.Args[1]) && iteConstLeaves(t.Args[2])
+	}
+	return t.IsConst()
 }
 
 func constEq(a, b *Term) bool {
@@ -534,6 +570,45 @@ func (tb *Table) StrFromInt(a *Term) *Term {
 		return tb.StrC(a.I.String())
 	}
 	return tb.app("str.from_int", Str, a)
+}
+
+// Itoa is the signed decimal rendering of an Int term (strconv.Itoa, %d, %.0f).
+func (tb *Table) Itoa(k *Term) *Term {
+	if k.IsConst() {
+		return tb.StrC(k.I.String())
+	}
+	return tb.Ite(tb.Lt(k, tb.IntC(0)), tb.Concat(tb.StrC("-"), tb.StrFromInt(tb.Neg(k))), tb.StrFromInt(k))
+}
+
+// ItoaArg recognises Itoa(k) terms.
+func (tb *Table) ItoaArg(s *Term) (*Term, bool) {
+	if s.Op == "ite" && s.Args[2].Op == "str.from_int" {
+		k := s.Args[2].Args[0]
+		if !k.IsConst() && s == tb.Itoa(k) {
+			return k, true
+		}
+	}
+	return nil, false
+}
+
+func canonicalDecimal(s string) (*big.Int, bool) {
+	d := s
+	if strings.HasPrefix(d, "-") {
+		d = d[1:]
+		if d == "0" {
+			return nil, false
+		}
+	}
+	if d == "" || (len(d) > 1 && d[0] == '0') {
+		return nil, false
+	}
+	for i := 0; i < len(d); i++ {
+		if d[i] < '0' || d[i] > '9' {
+			return nil, false
+		}
+	}
+	n, ok := new(big.Int).SetString(s, 10)
+	return n, ok
 }
 
 func (tb *Table) StrToInt(a *Term) *Term {
